@@ -7,7 +7,8 @@ namespace Inspector
 /-- Go strings and byte slices are arbitrary byte sequences. -/
 abbrev Bytes := List UInt8
 
-def strBytes (s : String) : Bytes := s.toUTF8.toList
+/-- UTF-8 bytes of a string (structural, so that closed instances reduce in the kernel). -/
+def strBytes (s : String) : Bytes := s.toList.flatMap String.utf8EncodeChar
 
 def hexDigit (n : Nat) : Char :=
   if n < 10 then Char.ofNat (48 + n) else Char.ofNat (87 + n)
